@@ -41,8 +41,8 @@ func (r *Rand) Intn(n int) int {
 	}
 	return int(r.U64() % uint64(n))
 }
-func (r *Rand) Bool() bool         { return r.U64()&1 == 1 }
-func (r *Rand) Chance(p int) bool  { return r.Intn(100) < p }
+func (r *Rand) Bool() bool            { return r.U64()&1 == 1 }
+func (r *Rand) Chance(p int) bool     { return r.Intn(100) < p }
 func (r *Rand) Fork(tag uint64) *Rand { return NewRand(r.U64() ^ (tag * 0xD6E8FEB86659FD93)) }
 func (r *Rand) Bytes(n int) []byte {
 	b := make([]byte, n)
@@ -207,7 +207,7 @@ type Property struct {
 
 var registry = map[string]*Property{}
 
-func Register(p *Property) { registry[p.ID] = p }
+func Register(p *Property)    { registry[p.ID] = p }
 func Get(id string) *Property { return registry[id] }
 func IDs() []string {
 	var ids []string
@@ -359,7 +359,9 @@ func RunCheck(prop, tier string, seed int64, self, selfRace string, onlyBatch in
 			inconclusive = append(inconclusive, fmt.Sprintf("batch %d: watchdog (%ds) fired", o.batch, timeout))
 			continue
 		}
-		if o.raceN > 0 {
+		if o.raceN > 0 && !strings.Contains(o.raceTxt, "/repo/") {
+			inconclusive = append(inconclusive, fmt.Sprintf("batch %d: %d race report(s) without a frame in /repo (harness race?): %s", o.batch, o.raceN, truncate(o.raceTxt, 1500)))
+		} else if o.raceN > 0 {
 			viol = append(viol, Violation{Property: prop, Sig: "race:" + raceSig(o.raceTxt), What: fmt.Sprintf("%d data race report(s) from the race detector", o.raceN),
 				Seed: seed, Tier: tier, Batch: o.batch, Batches: batches, Witness: truncate(o.raceTxt, 6000)})
 		}
@@ -494,7 +496,7 @@ func raceSig(txt string) string {
 	// first /repo frame of the first report, line numbers stripped
 	for _, line := range strings.Split(txt, "\n") {
 		line = strings.TrimSpace(line)
-		if strings.Contains(line, "elrond-vm-common") && strings.Contains(line, "(") && !strings.HasPrefix(line, "/") {
+		if strings.Contains(line, "elrond-vm-common") && strings.Contains(line, "(") && !strings.HasPrefix(line, "/") && !strings.HasPrefix(line, "verif/") {
 			if i := strings.Index(line, "("); i > 0 {
 				return line[:i]
 			}
@@ -607,7 +609,7 @@ func writeEvidence(p *Property, tier string, seed int64, agg *workerResult, dist
 		"seed":        seed,
 		"level":       p.Level,
 		"coverage":    cov,
-		"assumptions": p.Assumptions,
+		"assumptions": append([]string{}, p.Assumptions...),
 		"wall_s":      float64(int(wall*10)) / 10,
 		"violations":  violations,
 	}
